@@ -263,7 +263,7 @@ META = {
               'at least |directory identities|+2 - it terminates by loop detection or by exhausting the tree (C16_terminates, including the start-directory key quirk); a directory whose '
               'identity is recorded for an ancestor raises the symlink-loop error and a directory/file on another device raises the cross-device error, whatever the handler answers. '
               'Through the whole walk: a verification of any relative path (the top directory included) that returns has reached no directory whose identity is that of a directory passed on the way to it - a link back to an ancestor is never walked into and accepted (C16_no_loop_is_walked_into, Proofs/NoLoop.v, Proofs/NoLoopTop.v); '
-              'the same for update / create: an update that returns has walked into no such directory, so no Manifest is created or rewritten through a link that leads back to an ancestor (C16_update_walks_into_no_loop, Proofs/NoLoopUpd.v). '
+              'the same for update / create: an update that returns has walked into no such directory, so no Manifest is created or rewritten through a link that leads back to an ancestor (C16_update_walks_into_no_loop, Proofs/NoLoopUpd.v); the scan for unregistered Manifests and the update walk raise the same loop / cross-device errors before anything in the directory is read or written (C16_update_walks_raise). '
               'Which links lead back to an ancestor (the kernel identity law) and "unless under an IGNOREd path" are compared on enumerated graphs (with an independent cycle oracle), for all three walks.',
    level_note='About Model/Loader.v walk_verify; termination of the real os.walk is covered by a 20 s watchdog per run; the kernel identity law (st_dev, st_ino) is assumed.'),
  'C03': dict(engine='coq+tree', design_ref='DESIGN.md section 5 C03',
